@@ -85,6 +85,7 @@ def run_workers(binary, specs, gomaxprocs, watchdog_s):
             json.dump({k: v for k, v in sp.items() if not k.startswith("_")}, f)
         env = dict(GOENV)
         env["VERIF_SPEC"] = sp["_specfile"]
+        env["VERIF_SCRATCH"] = os.path.dirname(sp["_specfile"])
         env["GOMAXPROCS"] = str(sp.get("_gomaxprocs", gomaxprocs))
         lf = open(sp["_specfile"] + ".log", "w")
         p = subprocess.Popen([binary, "-test.run", "^TestWorker$", "-test.timeout", "0", "-test.count", "1"],
